@@ -20,7 +20,7 @@ from ..elements import registered_elements
 from ..model import get_model
 from ..numeric import RepoInterp
 from ..terms import Unsupported
-from .c07 import LS, MI, TAU, UT, W, XC, XK, XL, XR, columns_of, mapping_of
+from .c07 import LS, MI, TAU, UT, W, XC, XK, XL, XR, columns_of, mapping_of, zero_guard_rule
 
 LEVEL = "other"
 KK = "pyimpspec.analysis.kramers_kronig"
@@ -248,4 +248,5 @@ def check(ctx: Ctx) -> None:
                             ctx.violation("R9.5", f"{fi.qual}:{tgt}:{key}", mod, s, f"{fi.qual} assigns the dimensioned fit variable {tgt} the bare number {key}: its meaning changes with the unit of impedance/frequency")
     if n_lit < 3:
         raise AnalysisError(f"R9.5: only {n_lit} numeric literals on fit variables found (floor 3)")
+    zero_guard_rule(ctx, model, "R9.5", "the tolerance is a bare number compared with a dimensioned quantity, so whether the coefficient survives depends on the unit of impedance/frequency")
     ctx.sample({"tau_term": str(tau_term)[:160]})
